@@ -4,7 +4,7 @@
 EXTENDS Integers, Sequences, FiniteSets, TLC, Json, IOUtils
 
 Trace == ndJsonDeserialize(IOEnv.VH_TRACE)
-WDefaults == [format |-> "", indent |-> "4", noclobber |-> "false", fopt |-> ""]
+WDefaults == [format |-> "", indent |-> "4", noclobber |-> "false", fopt |-> "", store |-> ""]
 RDefaults == [fopt |-> "", retr |-> "", format |-> ""]
 Over(base, f) == [o \in DOMAIN base |-> IF o \in DOMAIN f THEN f[o] ELSE base[o]]
 
@@ -28,9 +28,14 @@ Judge(e) ==
              fmt == IF e.callfmt # "" THEN e.callfmt ELSE cfg.format IN
            (IF fmt = "" THEN (IF e.used = "error" THEN {} ELSE {"config.call.used"})
             ELSE IF e.used # fmt THEN {"config.call.used"}
-            ELSE IF fmt = "spdx23" /\ e.callfmt = "" /\ e.usedindent # cfg.indent THEN {"config.call.indent"} ELSE {})
+            ELSE IF fmt = "spdx23" /\ e.callfmt = "" /\ "shared" \notin DOMAIN e /\ e.usedindent # cfg.indent THEN {"config.call.indent"} ELSE {})
            \cup (IF e.insts = w /\ e.rinsts = r THEN {} ELSE {"config.call.persist"})
            \cup (IF e.fresh = WDefaults /\ e.rfresh = RDefaults THEN {} ELSE {"config.defaults"})
+    [] e.op = "SetStorePath" ->
+         \* configuring the storage backend of instance i changes that instance only
+         (IF e.insts = [k \in DOMAIN w |-> IF k = e.i THEN [w[k] EXCEPT !.store = e.path] ELSE w[k]] THEN {} ELSE {"config.store.shared-backend"})
+         \cup (IF e.rinsts = r THEN {} ELSE {"config.new.cross"})
+         \cup (IF e.fresh = WDefaults /\ e.rfresh = RDefaults THEN {} ELSE {"config.defaults"})
     [] e.op = "Read" ->
          \* parsing through an instance (auto-detection) works whatever was parsed before and leaves every configuration alone
          (IF e.got = "ok" THEN {} ELSE {"config.read.result"})
